@@ -21,4 +21,6 @@ INVARIANT InvDOther
 INVARIANT InvA
 INVARIANT InvAnn
 INVARIANT Exclusion
+INVARIANT LogHeaderOK
+INVARIANT InvLogNoTorn
 CHECK_DEADLOCK FALSE
